@@ -10,7 +10,6 @@ trusted = [
   "`(a..b).find(|&i| pred(data[i]))` and `data[a..].iter().take_while(|&&b| b == b' ').count()` replaced by stubs with the documented meaning of the std iterator adapters",
   "avx2_enabled() (cpuid + SUCCINCTLY_SIMD clamp): arbitrary boolean",
   "vstd specification of u32::trailing_zeros",
-  "find_block_scalar_end kernels are NOT in this unit (bounded Kani evidence only)",
 ]
 spec = ''' + "'''" + r'''
 global size_of usize == 8;
@@ -129,7 +128,7 @@ pub proof fn lemma_or_lane(a: u8, b: u8)
 {
     assert((a == 0xFFu8 || a == 0u8) && (b == 0xFFu8 || b == 0u8) ==> (((a | b) >= 0x80u8) == (a == 0xFFu8 || b == 0xFFu8))) by (bit_vector);
 }
-''' + open('/verif/tools/c16_anchor_spec.rs').read() + "'''\n"
+''' + open('/verif/tools/c16_anchor_spec.rs').read() + open('/verif/tools/c16_block_spec.rs').read() + "'''\n"
 
 COMMON_REWRITES = r'''[[item.rewrite]]
 rule = "U1"
@@ -276,4 +275,18 @@ items += kernel("count_leading_spaces_avx2", 3, "avx2", False, tails, "offset + 
 items += kernel("count_leading_spaces_sse2", 3, "sse2", False, tails, "offset + count_spaces_from(data, offset)", SP)
 items += dispatcher("count_leading_spaces_x86", 3, False)
 items += open("/verif/tools/c16_anchor_items.toml").read()
+
+def block_items(eng):
+    t = open("/verif/tools/c16_block_items.tmpl").read()
+    if eng == "avx2":
+        m = {"@ENG@": "avx2", "@ENGU@": "AVX2", "@W@": "32", "@LOADI@": "_mm256_loadu_si256", "@VT@": "__m256i", "@LOADS@": "load256_at", "@MMI@": "_mm256_movemask_epi8",
+             "@MMS@": "movemask256", "@OR@": "_mm256_or_si256", "@CMP@": "_mm256_cmpeq_epi8", "@MASKLT@": "", "@OFFLT@": "assert(offset < 32);"}
+    else:
+        m = {"@ENG@": "sse2", "@ENGU@": "SSE2", "@W@": "16", "@LOADI@": "_mm_loadu_si128", "@VT@": "__m128i", "@LOADS@": "load128_at", "@MMI@": "_mm_movemask_epi8",
+             "@MMS@": "movemask128", "@OR@": "_mm_or_si128", "@CMP@": "_mm_cmpeq_epi8", "@MASKLT@": "mask0 < 0x1_0000,",
+             "@OFFLT@": "assert(mask0 < 0x1_0000 && ou >= 16 && ou < 32 ==> (mask0 >> ou) & 1 == 0) by (bit_vector); assert(offset < 16);"}
+    for k, v in m.items():
+        t = t.replace(k, v)
+    return t
+items += open("/verif/tools/c16_block_tail.toml").read() + block_items("avx2") + block_items("sse2") + open("/verif/tools/c16_block_disp.toml").read()
 open("/verif/verus/c16_kernels.toml", "w").write("# GENERATED by tools/gen_c16.py\n" + HEAD + items)
